@@ -466,6 +466,22 @@ def check_subscripts(ctx: Ctx) -> None:
                     and isinstance(n.value, (ast.Name, ast.Attribute)):
                 unpacks[id(n.value)] = n
                 subs.append(n.value)
+        # `(line,) = helper(...)`: an exact-arity unpacking of what a function of the package declares to be a list of any length
+        exact: list[tuple[ast.Assign, FuncInfo]] = []
+        for n in walk_no_nested(fi.node):
+            if isinstance(n, ast.Assign) and len(n.targets) == 1 and isinstance(n.targets[0], (ast.Tuple, ast.List)) \
+                    and not any(isinstance(e, ast.Starred) for e in n.targets[0].elts) and isinstance(n.value, ast.Call):
+                tg = prog.resolve_call(fi, n.value)
+                if isinstance(tg, list) and len(tg) == 1 and not isinstance(tg[0].node, ast.Lambda) and getattr(tg[0].node, "returns", None) is not None \
+                        and norm(tg[0].node.returns).split("[")[0] in ("list", "List", "typing.List", "Sequence", "Iterable", "Iterator"):
+                    exact.append((n, tg[0]))
+        for st_, callee_ in exact:
+            n_sub += 1
+            ok_ = _in_try_catching(st_.value, ("ValueError", "Exception"))
+            ctx.ob("R-TERM-index", f"{fi.qual} :: {norm(st_)[:60]}", ok_,
+                   f"`{callee_.name}` returns a list of any length (`{norm(callee_.node.returns)}`), e.g. none for empty input; unpacking it into exactly "
+                   f"{len(st_.targets[0].elts)} name(s) raises ValueError for every other length" if not ok_ else "inside a try that catches ValueError",
+                   where(fi, st_))
         if not subs:
             continue
         flow = prog.flow(fi)
